@@ -153,7 +153,11 @@ let suite_classes file =
               | Some c, _ | None, c :: _ -> bump by_kind (string_of_kind c.cc_count)
               | None, [] -> ())
           | _ -> ());
-          if impl <> "P" && not (contains impl " N") then Hashtbl.replace distinct (Printf.sprintf "%d %s %s" !cfgno !cores_s q) ();
+          if impl <> "P" && not (contains impl " N") then begin
+            (* distinct (configuration, cores, query) with a slot index: keyed by a 60-bit hash of the text *)
+            let key = Printf.sprintf "%d %s %s" !cfgno !cores_s q in
+            Hashtbl.replace distinct ((Hashtbl.hash key lsl 30) lor Hashtbl.seeded_hash 17 key) ()
+          end;
           (* ---- oracle on the implementation's own results *)
           let inside = !hyp && !cores <> N0 in
           if not inside then incr outside
